@@ -160,9 +160,11 @@ def scenario(it, facts, body, inst):
     objs = {}
     ctx = Unknown('ctx')
     for c in reversed(MRO):        # bases first
-        sc = Obj(facts.classes['ClassScope'], {'top': top}, 'scope' + c)
+        # the class body binds `m` (or nothing): supp's own class-attribute table is computed from the scope's names and locals
+        table = {'m': ('body', c), 'outer': ('module', c)} if c in body else {'outer': ('module', c)}
+        sc = Obj(facts.classes['ClassScope'], {'top': top, 'names': table, 'locals': ({'m'} if c in body else set()),
+                                               'flow': Obj(facts.classes['Flow'], {'names': table}, 'exit region of ' + c)}, 'scope' + c)
         o = Obj(CO, {'ctx': ctx, 'scope': sc}, 'class ' + c)
-        o.attrs['_cls_attrs'] = ({'m': ('body', c)} if c in body else {})
         objs[c] = o
     for c in MRO:
         objs[c].attrs['bases'] = [objs[b] for b in BASES[c]]
